@@ -191,3 +191,6 @@ Fixpoint no_dangling_crash (d : dworld) (l : list op) : bool :=
       (match o with Crash _ => negb (dangling d) | _ => true end)
       && no_dangling_crash (fst (dstep d o)) l'
   end.
+
+Definition hdclasses_enc (nhosts bs : nat) (l : list (nat * op)) : list N :=
+  flat_map (fun h => map klass_id (dclasses bs (host_ops h l))) (seq 0 nhosts).
